@@ -101,11 +101,13 @@ var sigKinds = []string{"sig_corrupt", "sig_strip", "sig_wrong_key"}
 
 // sigFault returns a copy of raw whose signature by one required signer is
 // corrupted / stripped / made with a key that is not the server's.
-func (rm *room) sigFault(ev gmsl.PDU, kind string) []byte {
+func (rm *room) sigFault(ev gmsl.PDU, kind string, victim string) []byte {
 	t := rm.t
 	raw := ev.JSON()
 	signers := rm.requiredSigners(ev)
-	victim := sim.Pick(t, signers)
+	if victim == "" {
+		victim = sim.Pick(t, signers)
+	}
 	sigs := getSigs(raw)
 	switch kind {
 	case "sig_corrupt":
@@ -204,7 +206,7 @@ func (rm *room) rebuildDisallowed(ev gmsl.PDU, lookup func(string) gmsl.PDU) (gm
 		cm, _ := c.content["membership"].(string)
 		_ = cm
 		for _, s := range rm.extraSigners(ev.Type(), c.sk, c.content, c.actor.id) {
-			ne = ne.Sign(string(s.Name), s.Current().ID, s.Current().Priv)
+			ne = rm.countersign(ne, s)
 		}
 		var own []gmsl.PDU
 		for _, a := range ne.AuthEventIDs() {
@@ -360,15 +362,44 @@ func guard(r *sim.Run, op string, f func()) (aborted bool) {
 			if site == "harness" {
 				panic(p)
 			}
-			if len(st) > 3000 {
-				st = st[:3000]
-			}
+			st = cleanStack(st)
 			aborted = true
 			r.Violate(r.Prop, "panic", site, "%s: library panicked: %v\n%s", op, p, st)
 		}
 	}()
 	f()
 	return false
+}
+
+// cleanStack keeps the frames of a stack dump without addresses, argument
+// values or goroutine numbers (the event log must be identical across runs).
+func cleanStack(st string) string {
+	var out []string
+	for _, ln := range strings.Split(st, "\n") {
+		switch {
+		case strings.HasPrefix(ln, "goroutine "), ln == "":
+			continue
+		case strings.HasPrefix(ln, "\t"):
+			if i := strings.LastIndex(ln, " +0x"); i > 0 {
+				ln = ln[:i]
+			}
+			if i := strings.LastIndex(ln, "/"); i > 0 {
+				ln = "\t" + ln[i+1:]
+			}
+		default:
+			if i := strings.LastIndex(ln, "("); i > 0 {
+				ln = ln[:i]
+			}
+		}
+		if strings.Contains(ln, "runtime/debug") || strings.HasPrefix(ln, "runtime.") || strings.HasPrefix(ln, "panic") {
+			continue
+		}
+		out = append(out, ln)
+		if len(out) >= 24 {
+			break
+		}
+	}
+	return strings.Join(out, "\n")
 }
 
 // ---- scripted StateProvider --------------------------------------------------------------
@@ -392,14 +423,16 @@ type stProvider struct {
 	log      []string
 }
 
-func (s *stProvider) enter(what string, ev gmsl.PDU) {
+func (s *stProvider) enter(what string, ev gmsl.PDU) { s.enterID(what, ev.EventID()) }
+
+func (s *stProvider) enterID(what string, id string) {
 	s.calls++
-	s.log = append(s.log, what+":"+shortID(ev.EventID()))
+	s.log = append(s.log, what+":"+shortID(id))
 	if s.cancelAt > 0 && s.calls == s.cancelAt && s.cancel != nil {
 		s.cancel()
 		s.fired = true
 		s.r.Fault("ctx_cancel")
-		s.r.Logf("  ctx cancelled inside %s(%s)", what, shortID(ev.EventID()))
+		s.r.Logf("  ctx cancelled inside %s(%s)", what, shortID(id))
 	}
 }
 
@@ -472,3 +505,54 @@ func (d *ledgerDB) FetchKeys(ctx context.Context, reqs map[gmsl.PublicKeyLookupR
 func (d *ledgerDB) StoreKeys(ctx context.Context, res map[gmsl.PublicKeyLookupRequest]gmsl.PublicKeyLookupResult) error {
 	return nil
 }
+
+// fedState answers /state and /state_ids from the same script, for the real
+// FederatedStateProvider.
+type fedState struct {
+	sp   *stProvider
+	auth func(state []gmsl.PDU) []gmsl.PDU
+}
+
+func (f *fedState) LookupStateIDs(ctx context.Context, origin, s spec.ServerName, roomID, eventID string) (gmsl.StateIDResponse, error) {
+	f.sp.enterID("ids", eventID)
+	a := f.sp.answers[eventID]
+	if a == nil || a.idsErr {
+		f.sp.r.Fault("provider_error")
+		return nil, fmt.Errorf("/state_ids: remote error")
+	}
+	return &stateIDs{state: append([]string{}, a.ids...)}, nil
+}
+
+func (f *fedState) LookupState(ctx context.Context, origin, s spec.ServerName, roomID, eventID string, ver gmsl.RoomVersion) (gmsl.StateResponse, error) {
+	f.sp.enterID("state", eventID)
+	a := f.sp.answers[eventID]
+	if a == nil || a.stErr {
+		f.sp.r.Fault("provider_error")
+		return nil, fmt.Errorf("/state: remote error")
+	}
+	ids := make([]string, 0, len(a.state))
+	for id := range a.state {
+		ids = append(ids, id)
+	}
+	sort.Strings(ids)
+	var st []gmsl.PDU
+	out := &stateRespRaw{}
+	for _, id := range ids {
+		st = append(st, a.state[id])
+		out.state = append(out.state, append([]byte{}, a.state[id].JSON()...))
+	}
+	for _, e := range f.auth(st) {
+		out.auth = append(out.auth, append([]byte{}, e.JSON()...))
+	}
+	return out, nil
+}
+
+type stateIDs struct{ state, auth []string }
+
+func (s *stateIDs) GetStateEventIDs() []string { return s.state }
+func (s *stateIDs) GetAuthEventIDs() []string  { return s.auth }
+
+type stateRespRaw struct{ auth, state gmsl.EventJSONs }
+
+func (s *stateRespRaw) GetAuthEvents() gmsl.EventJSONs  { return s.auth }
+func (s *stateRespRaw) GetStateEvents() gmsl.EventJSONs { return s.state }
